@@ -16,4 +16,5 @@ CONSTANTS
 VIEW View
 CONSTRAINT Bound
 INVARIANT InvRect
+INVARIANT InvSharingJustified
 CHECK_DEADLOCK FALSE
